@@ -2,18 +2,15 @@
    This file contains only the property theorems (closed by [exact]), their [Print Assumptions]
    and non-vacuity examples closed by [vm_compute]; models are in Model/ (Fs.v: the file system,
    DiskWriterFs.v: DiskWriter.HandleChange and the receive loop as sequences of system calls),
-   proofs in Proofs/ (FsP FsReachP FsFrameP FsSysP FsTreeP DwP RecvP FsWfP C03P).
+   proofs in Proofs/ (FsP FsReachP FsFrameP FsSysP FsTreeP DwP RecvP OldListP RecvOldP FsWfP
+   C03P RejectP).
 
-   FULL STATEMENT (DESIGN section 4), not yet proved in this generality:
-     receiver_contained : forall f root D dl merge tmps pks j,
-       wf D f -> temporary names unused and no path component of the stream ->
-       outside_unchanged D f (recv_fs_prefix f root D dl merge tmps pks j)
-   Proved below for merge = true (ReceiveOpt.Merge: the old content of the destination is not
-   walked, every entry of the stream goes to the disk writer, nothing is deleted): for every
-   hostile packet list, every pre-existing destination (symlinks to anywhere, hard links shared
-   with the outside, special files, ...), every prefix j of the effects.  The case merge = false
-   additionally needs the invariant of the old listing (entries not yet passed are untouched,
-   entries below a replaced directory are skipped); see props/C03.json unproved_statements. *)
+   receiver_contained is the full statement of DESIGN section 4: for every hostile packet list,
+   every pre-existing destination (symlinks to anywhere, hard links shared with the outside,
+   special files, ...), both settings of ReceiveOpt.Merge (merge = true: the old content of the
+   destination is not walked, every entry of the stream goes to the disk writer, nothing is
+   deleted; merge = false: the old content is walked first and diffed against the stream,
+   entries the stream does not name are removed) and every prefix j of the effects. *)
 From Coq Require Import List NArith Bool String Ascii.
 From FS Require Import Sx Model.Path Model.Stat Model.Validator Model.Fs Model.DiskWriterFs Model.RecvSpec.
 From FS Require Import Proofs.FsP Proofs.FsReachP Proofs.RecvP Proofs.FsWfP Proofs.C03P Proofs.RejectP.
@@ -32,12 +29,12 @@ Open Scope N_scope.
    inode; D is a directory and not its own descendant; allocation counter above all inode
    numbers) — the temporary names ".tmp.<n>" the writer may use are well-formed, not in use
    inside D and never a component of a path the sender names. *)
-Theorem receiver_contained_partial :
-  forall (f : fs) (root D : N) (dl : bool) (tmps : list bytes) (pks : list packet) (j : nat),
+Theorem receiver_contained :
+  forall (f : fs) (root D : N) (dl merge : bool) (tmps : list bytes) (pks : list packet) (j : nat),
     wf D f -> (forall t, tmpname tmps t -> okname t) -> tmp_unused D f tmps ->
     Forall (clean_packet tmps) pks ->
-    outside_unchanged D f (recv_fs_prefix f root D dl true tmps pks j).
-Proof. exact receiver_contained_merge. Qed.
+    outside_unchanged D f (recv_fs_prefix f root D dl merge tmps pks j).
+Proof. exact receiver_contained_proof. Qed.
 
 (* A stream that the stream-only specification (Model/RecvSpec.v) calls bad at packet b — a STAT
    whose path is not a clean relative path inside the root, not strictly after every earlier path,
@@ -56,7 +53,7 @@ Theorem bad_stream_rejected :
     /\ r_fs st = r_fs (recv_fs f root D dl merge tmps (firstn b pks)).
 Proof. exact bad_stream_rejected_proof. Qed.
 
-Print Assumptions receiver_contained_partial.
+Print Assumptions receiver_contained.
 Print Assumptions bad_stream_rejected.
 
 (* ---- non-vacuity: a hostile destination and a hostile stream inside the hypotheses ---- *)
@@ -121,3 +118,14 @@ Example example_outside_same :
   map (get (r_fs ex_run)) [1; 2; 3; 4] = map (get ex_fs) [1; 2; 3; 4]
   /\ (match get ex_fs 3 with Some {| i_kind := KFile d |} => Some d | _ => None end) = Some (bs "O:f").
 Proof. vm_compute. split; reflexivity. Qed.
+
+(* without Merge the same stream first removes what it does not name: the old file a is gone,
+   the symlink l has been replaced by a directory — and the outside is as before *)
+Definition ex_run2 : rstate := recv_fs ex_fs 1 ex_D false false [] ex_pks.
+Example example_nomerge :
+  let f' := r_fs ex_run2 in
+  r_out ex_run2 = Failed 6
+  /\ rwalk ex_fs ex_D [bs "a"] = Some 8 /\ rwalk f' ex_D [bs "a"] = None
+  /\ (match rwalk f' ex_D [bs "l"] with Some i => is_dir f' i | None => false end) = true
+  /\ map (get f') [1; 2; 3; 4] = map (get ex_fs) [1; 2; 3; 4].
+Proof. vm_compute. repeat split; reflexivity. Qed.
